@@ -9,6 +9,7 @@ import (
 	"regexp"
 	"sort"
 	"strings"
+	"time"
 
 	"verif/harness/internal/ev"
 )
@@ -87,12 +88,20 @@ func B(s string, ch chan int) bool {
 	select {
 	case <-ch:
 	}
-	//lint:ignore SA1000 this directive matches nothing
 	if strings.Index(s, "x") != -1 {
 		return true
 	}
 	var e bool = s == s
 	return e
+}
+`
+
+// a well-formed directive that matches nothing: a problem of category
+// "staticcheck" as long as the named check is enabled
+const srcBUnmatched = srcB + `
+func B1(ch chan int) int {
+	//lint:ignore SA1000 this directive matches nothing
+	return <-ch
 }
 `
 
@@ -130,7 +139,7 @@ func Broken() int { return "not an int" }
 
 var srcCImportErr = strings.Replace(srcC, "import \"errors\"\n", "import (\n\t\"errors\"\n\t_ \"m/missing\"\n)\n", 1)
 
-var variants = []string{"base", "typeerr", "importerr", "malformed"}
+var variants = []string{"base", "typeerr", "importerr", "unmatched", "malformed"}
 
 var pkgDirs = []string{"", "a", "a/b", "c"}
 
@@ -148,6 +157,8 @@ func variantFiles(v string) map[string]string {
 		fs["c/c.go"] = srcCTypeErr
 	case "importerr":
 		fs["c/c.go"] = srcCImportErr
+	case "unmatched":
+		fs["a/b/b.go"] = srcBUnmatched
 	case "malformed":
 		fs["a/b/b.go"] = srcBMalformed
 	default:
@@ -268,7 +279,11 @@ func (w *workspace) run(dir string, args ...string) (runResult, error) {
 	cmd.Env = append(os.Environ(), "STATICCHECK_CACHE="+w.cache)
 	var o, e bytes.Buffer
 	cmd.Stdout, cmd.Stderr = &o, &e
+	t0 := time.Now()
 	err := cmd.Run()
+	if os.Getenv("C11_TRACE") != "" {
+		fmt.Fprintf(os.Stderr, "c11: %.2fs %s %v\n", time.Since(t0).Seconds(), filepath.Base(dir), args)
+	}
 	res := runResult{stdout: o.String(), stderr: e.String()}
 	if err != nil {
 		ee, ok := err.(*exec.ExitError)
